@@ -169,7 +169,17 @@ struct CR
     CR(Case &c_, unsigned n_) : c(c_), n(n_), blk(n_)
     {
         memset(blk.p, 0xA5, n);
-        ring_init(&r, n);
+        // the control block comes from ring_init() or, for three sizes, from the static initialiser macro (which fills
+        // the members positionally)
+        static const ring_head k8 = RING_HEAD_INIT(8), k13 = RING_HEAD_INIT(13), k33 = RING_HEAD_INIT(33);
+        if (n == 8)
+            r = k8;
+        else if (n == 13)
+            r = k13;
+        else if (n == 33)
+            r = k33;
+        else
+            ring_init(&r, n);
     }
     size_t cap() const { return n - 1; }
     size_t room() const { return cap() - q.size(); }
@@ -1118,6 +1128,46 @@ void t_cxx_ring_direct(Src &s, Case &c)
 VP_TARGET("cxx_ring_direct", t_cxx_ring_direct,
           "igris::ring<int>, size 2..40: push/pop mixed with bursts of 1..room values written straight into the storage and announced through "
           "set_last_index (half of them ending exactly in the last slot); same reference and checks; non-trivial = a burst ended in the last slot");
+
+// Copy assignment of whole rings followed by reset(): a ring that received the content of another ring must from then
+// on behave as a ring of that other ring's size.
+void t_cxx_ring_assign(Src &s, Case &c)
+{
+    unsigned sa = gen_size(s), sb = gen_size(s);
+    c.log("ring<int> A(size %u) = B(size %u): ", sa, sb);
+    XR<int> A(c, false, sa - 1), B(c, false, sb - 1);
+    int next = 1;
+    for (unsigned i = 0, k = (unsigned)s.below(sa + 2); i < k && A.room(); i++)
+        A.push(next++, 0);
+    for (unsigned i = 0, k = (unsigned)s.below(sb + 2); i < k && B.room(); i++)
+        B.push(next++, 0);
+    for (unsigned i = 0, k = (unsigned)s.below(4); i < k && !B.q.empty(); i++)
+        B.pop(0);
+    c.log("| assign ");
+    *A.R = *B.R;
+    A.cap = B.cap;
+    A.q = B.q;
+    A.check("copy assignment");
+    c.nontrivial = sa != sb;
+    c.label(sa > sb ? "assigned_from_smaller" : sa < sb ? "assigned_from_larger" : "same_size");
+    if (s.coin())
+    {
+        c.log("reset ");
+        A.R->reset();
+        A.q.clear();
+        A.check("reset after assignment");
+    }
+    // the assigned ring is filled to the brim and drained
+    while (A.room())
+        A.push(next++, 0);
+    A.check("filled");
+    while (!A.q.empty())
+        A.pop(0);
+    A.check("drained");
+}
+VP_TARGET("cxx_ring_assign", t_cxx_ring_assign,
+          "igris::ring<int>: ring A (size 2..40, partly filled) is copy-assigned ring B (another size, partly filled and drained), optionally reset(), then filled to the brim and "
+          "drained: size, indices, fill/free counts and content against the reference of B; non-trivial = the sizes differ");
 
 void t_cxx_ring_large(Src &s, Case &c)
 {
